@@ -81,6 +81,22 @@ def rule_accessor(prog: Program) -> List[Instance]:
                                     f"looks up its own key \"{keyc}\"" if keyc == pname else f"property `{pname}` looks up key \"{keyc}\"", m.where()))
             else:
                 out.append(Instance("R-ACCESSOR", cid, INFO, f"accessor body `{short(rv)}` not modelled", m.where(), nontrivial=False))
+        # configurable limits (free keyword arguments) must be validated against each other at construction:
+        # defaults are independent, so a configured minimum can exceed the default maximum
+        configurable = any(isinstance(x, ast.Call) and isinstance(x.func, ast.Attribute) and x.func.attr == "get" for pname in LIMIT_PROPS for m_ in [ci.find_method(pname)] if m_ is not None for x in walk_own(m_.node)) or \
+            any(isinstance(x, ast.Call) and isinstance(x.func, ast.Attribute) and isinstance(x.func.value, ast.Name) and x.func.value.id == "self" for pname in LIMIT_PROPS for m_ in [ci.find_method(pname)] if m_ is not None for x in walk_own(m_.node))
+        if configurable:
+            init = ci.find_method("__init__")
+            validated = False
+            if init is not None:
+                for x in walk_own(init.node):
+                    if isinstance(x, ast.If) and any(isinstance(y, ast.Raise) for y in x.body):
+                        attrs = {a_.attr for a_ in ast.walk(x.test) if isinstance(a_, ast.Attribute)} | {c_.value for c_ in ast.walk(x.test) if isinstance(c_, ast.Constant) and isinstance(c_.value, str)}
+                        if {"min_part", "max_part"} <= attrs and {"min_write_sz", "max_write_sz"} <= attrs:
+                            validated = True
+            out.append(Instance("R-ACCESSOR", f"{ci.qual}#limits-validated", OK if validated else BAD,
+                                "constructor rejects limits whose maximum is not above the minimum" if validated else
+                                f"{ci.name} takes its limits as independent keyword arguments and never compares them: {ci.name}(dst, min_part=20000) reports max_part 10000, below its minimum", f"{ci.mod.relpath}:{ci.node.lineno}"))
         for lo, hi in (("min_write_sz", "max_write_sz"), ("min_part", "max_part")):
             a, b = vals.get(lo), vals.get(hi)
             cid = f"{ci.qual}#default-order:{lo}<{hi}"
